@@ -1,0 +1,10 @@
+//go:build verif
+
+package kvs
+
+import "github.com/mit-pdos/go-journal/obj"
+
+// VerifLog exposes the store's journal to the verification harness.
+func (kvs *KVS) VerifLog() *obj.Log {
+	return kvs.log
+}
